@@ -74,13 +74,12 @@ class ListLoader(object):
                 try:
                     return self.object_class.yaml_construct(result, context)
                 except Exception as exc:
-                    from sys import exc_traceback
                     from traceback import format_tb
                     raise InputDataError(
                         '%s.yaml_construct() reported error '
                         '"%s" with traceback:\n%s'
                         % (self.object_class.__name__, exc,
-                            ''.join(format_tb(exc_traceback))))
+                            ''.join(format_tb(exc.__traceback__))))
             else:
                 return result
         else:
@@ -253,13 +252,12 @@ class ObjectLoader(object):
                 try:
                     return self.object_class.yaml_construct(params, context)
                 except Exception as exc:
-                    from sys import exc_traceback
                     from traceback import format_tb
                     raise InputDataError(
-                        '%s.yaml_construct() reported error',
+                        '%s.yaml_construct() reported error '
                         '"%s" with traceback:\n%s'
                         % (self.object_class.__name__, exc,
-                            ''.join(format_tb(exc_traceback))))
+                            ''.join(format_tb(exc.__traceback__))))
             else:
                 # Default constructor.
                 obj = type(self.object_class.__name__, (object,), {})()
